@@ -80,6 +80,9 @@ let chunk_facts (t, _) =
   let hi_pad = List.exists (function EPad (c, k) -> int_of_n c >= 128 && int_of_n k > 0 | EApp _ -> false) t in
   Printf.sprintf "chunk_bad=%d pad_hi=%d" (if bad_chunk then 1 else 0) (if hi_pad then 1 else 0)
 
+let trace_size (t, _) =
+  List.fold_left (fun s e -> match e with EApp d -> s + List.length d | EPad (_, k) -> s + int_of_n k) 0 t
+
 let allow_line bad oor cp =
   "ALLOW" ^ (if bad then " bad_format" else "") ^ (if oor then " out_of_range" else "") ^ (if cp then " ABORT:CharPad" else "")
 
@@ -90,6 +93,15 @@ let format_case a =
       let args = List.map parse_arg rest in
       let verdict = spec_format fmtv args in
       (match stream_of sink with
+       | None when trace_size (driver fmtv args) > (1 lsl 24) ->
+           (* C10Proofs.huge_when_big / huge_only_big: decided from the size of the calls, without
+              building the bytes (only the directed huge-output case comes here) *)
+           let (_, fin) = driver fmtv args in
+           let sz = trace_size (driver fmtv args) in
+           (match fin with
+            | Ok _ -> ((if sz >= (1 lsl 28) && sink <> "latin1x" then "ABORT Huge" else "OK * * term=1"),
+                       Printf.sprintf "OK * * term=1 # raw_size=%d" sz)
+            | _ -> (pr_outcome (fun _ -> "") (match fin with Throw e -> Throw e | Abort w -> Abort w | Fault f -> Fault f | Ok _ -> Ok ()), "="))
        | None ->
            let m =
              if sink = "latin1" then pr_outcome (bufinfo 2) (format_to_latin1 fmtv args)
@@ -105,7 +117,7 @@ let format_case a =
                        | AssumeValid -> "OK " ^ bufinfo 2 raw
                        | SubstituteInvalid ->
                            (* the repair itself is C02's subject: constrained here only when nothing needs repair *)
-                           if validate_utf8 raw then "OK " ^ bufinfo 2 raw else "OK * size=* term=1") in
+                           if validate_utf8 raw then "OK " ^ bufinfo 2 raw else "OK * * term=1") in
            (m, s)
        | Some (st, width) ->
            let m = pr_stream width (format_to_stream st fmtv args) in
